@@ -15,6 +15,11 @@ from ..schema_walk import SchemaContractError, all_classes, disk_modules, wire_s
 PIN_APIS = os.path.join(ROOT, "pins", "kafka-3.9.0-apis.json")
 
 
+def cv(cls, name):
+    """class constant or None (a payload class that lost a constant is judged, it must not crash the sweep)"""
+    return getattr(cls, name, None)
+
+
 def pin_apis():
     return json.load(open(PIN_APIS))
 
@@ -84,9 +89,9 @@ def pairing_pass(acc, index, mods, payloads, order_name):
             continue
         otop = top_level(other[0], other_typ)[0]
         acc.add("evaluations")
-        if (top.__api_key__, top.__flexible__) != (otop.__api_key__, otop.__flexible__):
+        if (cv(top, '__api_key__'), cv(top, '__flexible__')) != (cv(otop, '__api_key__'), cv(otop, '__flexible__')) or cv(top, '__api_key__') is None:
             acc.report(violation("C08", "pairing", "C08/request-response-disagree", case["class"], case,
-                                 f"{otop.__api_key__}/{otop.__flexible__}", f"{top.__api_key__}/{top.__flexible__}", (api, ver)))
+                                 f"{cv(otop, '__api_key__')}/{cv(otop, '__flexible__')}", f"{cv(top, '__api_key__')}/{cv(top, '__flexible__')}", (api, ver)))
         fwd, back = ((index.load_response_from_request, index.load_request_from_response) if typ == "request"
                      else (index.load_request_from_response, index.load_response_from_request))
         try:
@@ -542,7 +547,11 @@ def run_c14(tier):
             acc.outcome(f"coherent {typ} module")
         fam.setdefault((api, typ), {})[ver] = top
         if typ in ("request", "response"):
-            keys.setdefault(top.__api_key__, set()).add(api)
+            for const in ("__api_key__", "__header_schema__"):
+                if const not in top.__dict__:
+                    acc.add("evaluations")
+                    acc.report(violation("C14", "class", f"C14/payload-class-lacks-constant/{const}", mpath, case, f"{const} on every request / response class", "missing", (api, ver, typ)))
+            keys.setdefault(cv(top, "__api_key__"), set()).add(api)
     for (api, typ), vers in sorted(fam.items()):
         acc.add("evaluations")
         acc.add("families")
@@ -551,12 +560,12 @@ def run_c14(tier):
         if vs != list(range(vs[0], vs[-1] + 1)):
             acc.report(violation("C14", "family", "C14/versions-not-contiguous", f"{api}/{typ}", case, "contiguous", str(vs), (api, typ)))
             continue
-        flex = [vers[v].__flexible__ for v in vs]
+        flex = [cv(vers[v], '__flexible__') for v in vs]
         if any(a and not b for a, b in zip(flex, flex[1:])):
             acc.report(violation("C14", "family", "C14/flexibility-reverts", f"{api}/{typ}", case, "monotone", str(flex), (api, typ)))
             continue
         if typ in ("request", "response"):
-            ks = {vers[v].__api_key__ for v in vs}
+            ks = {cv(vers[v], '__api_key__') for v in vs}
             if len(ks) != 1:
                 acc.report(violation("C14", "family", "C14/api-key-not-constant", f"{api}/{typ}", case, "one key", str(ks), (api, typ)))
                 continue
@@ -565,9 +574,9 @@ def run_c14(tier):
                 acc.report(violation("C14", "family", "C14/request-and-response-versions-differ", f"{api}/{typ}", case, str(vs), str(sorted(other)), (api, typ)))
                 continue
         pin = pins.get(api, {}).get("types", {}).get(typ)
-        ff = next((v for v in vs if vers[v].__flexible__), None)
+        ff = next((v for v in vs if cv(vers[v], '__flexible__')), None)
         got = {"min": vs[0], "max": vs[-1], "first_flexible": ff}
-        if pin != got or (typ in ("request", "response") and pins[api]["key"] != vers[vs[0]].__api_key__):
+        if pin != got or (typ in ("request", "response") and pins[api]["key"] != cv(vers[vs[0]], '__api_key__')):
             acc.report(violation("C14", "family", "C14/family-differs-from-pinned-api-table", f"{api}/{typ}", case, str(pin), str(got), (api, typ)))
             continue
         acc.outcome("coherent family")
